@@ -35,7 +35,10 @@ def check(rep, model, tier):
     want_common = [(A['rises'], T.neg(half)), (A['decays'], half), (A['peaks'], C(0))]
     found = []
     for e in interps:
-        arrs = [x for x in T.walk(e['args'][2]) if x[0] == 'arr'] if len(e['args']) > 2 else []
+        vals = e['args'][2] if len(e['args']) > 2 else None
+        if vals is not None and vals[0] == 'idx':
+            vals = vals[1]               # the anchored array itself, not the selector applied to it (which may be computed from the other branch's array)
+        arrs = [x for x in T.walk(vals) if x[0] == 'arr'] if vals is not None else []
         if arrs:
             found.append([(s[0], s[1]) for s in max(arrs, key=lambda a: len(a[2]))[2]])
     want = sorted([want_common + [(A['troughs'], PI)], want_common + [(A['troughs'], T.neg(PI))]], key=repr)
